@@ -252,6 +252,26 @@ Proof.
   - right. split; auto. intros c Ho. apply Hb in Ho. congruence.
 Qed.
 
+(* ... "at once": in EVERY schedule, the answer to a call for a key that is not online at that moment is the
+   very next observation - before anything any connection, caller or the manager does afterwards - and the
+   call leaves the registry and every connection as they were (no connection, no timer is involved) *)
+Lemma not_online_at_once : forall sched1 sched2 k,
+  Forall nonempty_key sched1 ->
+  (forall c, ~ owner (final step init sched1) c k) ->
+  trace step init (sched1 ++ Send k :: sched2) =
+    trace step init sched1 ++
+    ONotExist (ncall (final step init sched1)) ::
+    trace step {| reg := reg (final step init sched1); conns := conns (final step init sched1);
+                  ncall := ncall (final step init sched1) + 1 |} sched2.
+Proof.
+  intros sched1 sched2 k Hne Hno.
+  rewrite trace_app. f_equal.
+  assert (Hr : reachable (final step init sched1)) by (exists sched1; auto).
+  destruct (routing _ Hr k) as [[c [Ho _]]|[_ E]]; [exfalso; exact (Hno c Ho)|].
+  unfold trace. cbn [run]. rewrite E.
+  destruct (run step _ sched2) as [s2 o2]. reflexivity.
+Qed.
+
 (* ---------------- callbacks ---------------- *)
 Definition cstate_of (s : st) (c : conn) : cstate :=
   match nth_error (conns s) c with Some cs => cs | None => CNew end.
